@@ -46,7 +46,8 @@ class Lab:
         env.import_lib()
         env.wipe_cache()
         self.level, self.kind = level, kind
-        self.spec, self.files = c07.product_files(level)
+        # images of 22..23 lines whose per-line values are piecewise constant (what a size-optimised index folds)
+        self.spec, self.files = c07.product_files(level, "steps")
         self.names = synth.file_names(self.spec)["img"]
         self.prod = harness.Product(self.files, kind, tag=f"c10_{level.replace('.', '')}_{kind}_{os.getpid()}")
         self.cdir = cachelab.user_cache_dir(self.prod.mapper_root())
